@@ -137,6 +137,43 @@ impl D {
         if f.min() != mn || f.max() != mx {
             ctx.fail("C16", format!("min/max = {}/{} but inserted extremes are {}/{}", f.min(), f.max(), mn, mx));
         }
+        // every read function as the FIRST read after the inserts (pending backlog) must agree with the value
+        // after a forced merge, and repeated reads must be identical
+        {
+            let probes_q = [0.0, 0.3, 1.0];
+            let probes_x = [mn - 1.0, mn, 0.5 * (mn + mx), mx, mx + 1.0];
+            let merged = inst.f.clone();
+            let _ = merged.n_centroids();
+            for q in probes_q {
+                let a = inst.f.clone().quantile(q);
+                let b = merged.quantile(q);
+                if a.to_bits() != b.to_bits() && !(a.is_nan() && b.is_nan()) {
+                    ctx.fail("C15", format!("quantile({}) as first read gives {} but {} after a merging read", q, a, b));
+                }
+            }
+            for x in probes_x {
+                let a = inst.f.clone().cdf(x);
+                let b = merged.cdf(x);
+                if a.to_bits() != b.to_bits() {
+                    ctx.fail("C15", format!("cdf({}) as first read gives {} but {} after a merging read", x, a, b));
+                }
+            }
+            let (a, b) = (inst.f.clone().count(), merged.count());
+            if a.to_bits() != b.to_bits() {
+                ctx.fail("C16", format!("count() as first read gives {} but {} after a merging read", a, b));
+            }
+            let (a, b) = (inst.f.clone().sum(), merged.sum());
+            if a.to_bits() != b.to_bits() {
+                ctx.fail("C16", format!("sum() as first read gives {} but {} after a merging read", a, b));
+            }
+            let (a, b) = (inst.f.clone().mean(), merged.mean());
+            if a.to_bits() != b.to_bits() {
+                ctx.fail("C16", format!("mean() as first read gives {} but {} after a merging read", a, b));
+            }
+            if inst.f.clone().is_empty() != merged.is_empty() {
+                ctx.fail("C16", "is_empty() differs before and after a merging read".into());
+            }
+        }
         // C04 size bound: unit-weight histories
         if inst.unit && (f.n_centroids() as f64) > inst.delta + 3.0 {
             ctx.fail("C04", format!("{} centroids exceed delta+3 (delta={}, n={})", f.n_centroids(), inst.delta, inst.items.len()));
@@ -200,6 +237,16 @@ impl D {
             let c = f.cdf(v).max(f.cdf(v + eps_v));
             if c < q - 64.0 * eps_c - 1e-12 {
                 ctx.fail("C15", format!("cdf(quantile({}))={} < q", q, c));
+                break;
+            }
+            // generalised-inverse property, upper side: just below the returned value the cdf must not exceed q
+            let mut bx = v - eps_v - (v.abs() * 4.0 * f64::EPSILON);
+            if bx >= v {
+                bx = if v > 0.0 { f64::from_bits(v.to_bits() - 1) } else if v < 0.0 { f64::from_bits(v.to_bits() + 1) } else { -f64::MIN_POSITIVE };
+            }
+            let below = f.cdf(bx);
+            if below > q + 64.0 * eps_c + 1e-12 {
+                ctx.fail("C15", format!("cdf just below quantile({})={} is {} > q", q, v, below));
                 break;
             }
         }
